@@ -8,6 +8,9 @@ Local Open Scope Q_scope.
 
 Definition Qsum (l : list Q) : Q := fold_right Qplus 0 l.
 
+(* idx is a position of a tensor of shape sh *)
+Definition valid (sh idx : list nat) : Prop := Forall2 lt idx sh.
+
 (* ---------------------------------------------------------------------------------- *)
 (* statistics: pooled population mean and (biased or Bessel-corrected) standard         *)
 (* deviation of all frames                                                             *)
@@ -23,6 +26,22 @@ Definition pooled (dim : Z) (xs : list tensor) (i : nat) : list Q :=
                      | Some d => coeff_vals x d i
                      | None => []
                      end) xs.
+
+(* the tensors of a history agree on the number X of coefficients along dim *)
+Definition uniform (dim : Z) (X : nat) (xs : list tensor) : Prop :=
+  Forall (fun x => exists d, norm_dim (length (shape x)) dim = Some d /\ nth d (shape x) 0%nat = X) xs.
+
+(* number of frames (vectors along the normalised dimension) in the tensors *)
+Definition frames (dim : Z) (xs : list tensor) : nat :=
+  fold_right (fun x acc => (match norm_dim (length (shape x)) dim with
+                            | Some d => rows_width x d
+                            | None => 0
+                            end + acc)%nat) 0%nat xs.
+
+(* two store() outcomes agree: the same error, or pointwise equal rationals *)
+Inductive same_result : result (list Q * list Q) -> result (list Q * list Q) -> Prop :=
+| same_ok : forall m v m' v', Forall2 Qeq m m' -> Forall2 Qeq v v' -> same_result (Ok (m, v)) (Ok (m', v'))
+| same_err : forall e, same_result (Err e) (Err e).
 
 Definition pop_mean (l : list Q) : Q := Qsum l / qofnat (length l).
 Definition sq_dev (l : list Q) : Q := Qsum (map (fun v => (v - pop_mean l) * (v - pop_mean l)) l).
@@ -111,6 +130,9 @@ Definition spec_deltas_okb (x : tensor) (dim time_dim : Z) (conc : bool) (o w : 
 (* ---------------------------------------------------------------------------------- *)
 (* returns: R_t = r_t + gamma * R_(t+1), R beyond the horizon = 0                       *)
 (* ---------------------------------------------------------------------------------- *)
+(* position (t, n) in the chosen layout: (T, N), or (N, T) when batch_first *)
+Definition at2 (bf : bool) (x : tensor) (t n : nat) : Q := get x (if bf then [n; t] else [t; n]).
+
 Definition ret_rec (g : Q) (rs : list Q) : list Q :=
   fold_right (fun r acc => (r + g * hd 0 acc) :: acc) [] rs.
 
